@@ -106,6 +106,9 @@ pub enum Obs {
     Item(u64, Option<bool>, bool), // value, continues, parameters present
     Pending,
     End,
+    /// wake-driven execution: the subscriber's waker has not fired since its last poll, so a runtime
+    /// would not poll it (and the harness does not either)
+    NotWoken,
 }
 
 fn op_json(o: &Op) -> Value {
@@ -133,8 +136,15 @@ fn op_from(v: &Value) -> Op {
 /// Execute the sequence on runtime crate `N`; operations that are impossible in the current
 /// situation (set through a dropped handle, poll of a subscriber that does not exist) are skipped.
 pub fn execute<N: Notif>(ops: &[Op]) -> Vec<Obs> {
+    execute_mode::<N>(ops, false)
+}
+
+/// `wake`: every subscriber is a task of its own with its own waker; after its first poll it is polled
+/// again only if that waker has fired (what a runtime does), otherwise the poll is recorded as `NotWoken`.
+pub fn execute_mode<N: Notif>(ops: &[Op], wake: bool) -> Vec<Obs> {
     let mut handles: Vec<Option<N::State>> = vec![Some(N::new(0)), None];
     let mut subs: Vec<Option<N::Stream>> = Vec::new();
+    let mut tasks: Vec<(std::sync::Arc<vnet::WakeFlag>, bool)> = Vec::new();
     let mut next = 1u64;
     let mut out = Vec::with_capacity(ops.len());
     for op in ops {
@@ -152,15 +162,27 @@ pub fn execute<N: Notif>(ops: &[Op]) -> Vec<Obs> {
             Op::Sub(h) => match handles.get(h as usize).and_then(|x| x.as_ref()) {
                 Some(s) => {
                     subs.push(Some(N::stream(s)));
+                    tasks.push((vnet::WakeFlag::new(), false));
                     Obs::Done
                 }
                 None => Obs::Skipped,
             },
             Op::Poll(i) => match subs.get_mut(i as usize).and_then(|x| x.as_mut()) {
+                Some(_) if wake && tasks[i as usize].1 && !tasks[i as usize].0.is_set() => Obs::NotWoken,
                 Some(st) => {
                     let fut = st.next();
                     let mut fut = core::pin::pin!(fut);
-                    match vnet::poll_once(fut.as_mut()) {
+                    let r = if wake {
+                        tasks[i as usize].1 = true;
+                        tasks[i as usize].0.poll(fut.as_mut())
+                    } else {
+                        vnet::poll_once(fut.as_mut())
+                    };
+                    if wake && r.is_ready() {
+                        // a task that got an item goes on (asks for the next one): it is runnable
+                        tasks[i as usize].1 = false;
+                    }
+                    match r {
                         Poll::Pending => Obs::Pending,
                         Poll::Ready(None) => Obs::End,
                         Poll::Ready(Some(r)) => Obs::Item(r.parameters().copied().unwrap_or(u64::MAX), r.continues(), r.parameters().is_some()),
@@ -259,6 +281,14 @@ pub fn judge(ops: &[Op], obs: &[Obs], stats: &mut Stats) -> Option<(String, Stri
                             stats.pending_after_state_dropped += 1;
                         }
                     }
+                    Obs::NotWoken => {
+                        stats.not_woken += 1;
+                        if let Some(n) = newest_since_sub {
+                            if s.last != Some(n) && !s.ended {
+                                return Some(("subscriber-not-woken-although-a-newer-value-was-set".into(), format!("step {k}: subscriber {i} returned Pending earlier, has seen {:?}, latest set since it subscribed is {n}, and its waker has not fired: a runtime would never poll it again", s.last)));
+                            }
+                        }
+                    }
                     Obs::End => {
                         stats.ends += 1;
                         if alive && !s.ended {
@@ -286,6 +316,7 @@ pub struct Stats {
     pub pendings: u64,
     pub ends: u64,
     pub pending_after_state_dropped: u64,
+    pub not_woken: u64,
 }
 
 fn hash_ops(ops: &[Op]) -> u64 {
@@ -309,6 +340,18 @@ fn check(ops: &[Op], rep: &mut Report, stats: &mut Stats) {
             }
         }
     }
+    // the same sequence wake-driven: a subscriber that returned Pending is only polled again after its waker fired
+    rep.evaluations += 1;
+    for (name, r) in [("tokio", vnet::catch(|| execute_mode::<Tok>(ops, true))), ("smol", vnet::catch(|| execute_mode::<Smo>(ops, true)))] {
+        match r {
+            Err(p) => rep.violation(&format!("C20/{name}/panic"), format!("panic (wake-driven): {p}; ops {ops:?}"), replay()),
+            Ok(obs) => {
+                if let Some((sig, detail)) = judge(ops, &obs, stats) {
+                    rep.violation(&format!("C20/{name}/{sig}"), format!("[wake-driven] {detail}; ops {ops:?}; observed {obs:?}"), replay());
+                }
+            }
+        }
+    }
     if traces.len() == 2 {
         if traces[0] == traces[1] {
             rep.count("traces_identical_tokio_smol");
@@ -328,15 +371,24 @@ pub enum OOp {
 }
 
 pub fn execute_once<N: Notif>(ops: &[OOp]) -> Vec<Obs> {
+    execute_once_mode::<N>(ops, false)
+}
+
+pub fn execute_once_mode<N: Notif>(ops: &[OOp], wake: bool) -> Vec<Obs> {
     let (o, mut st) = N::once();
     let mut o = Some(o);
     let mut out = Vec::new();
+    let flag = vnet::WakeFlag::new();
+    let mut parked = false;
     for op in ops {
         out.push(match op {
+            OOp::Poll if wake && parked && !flag.is_set() => Obs::NotWoken,
             OOp::Poll => {
                 let fut = st.next();
                 let mut fut = core::pin::pin!(fut);
-                match vnet::poll_once(fut.as_mut()) {
+                let r = if wake { flag.poll(fut.as_mut()) } else { vnet::poll_once(fut.as_mut()) };
+                parked = r.is_pending();
+                match r {
                     Poll::Pending => Obs::Pending,
                     Poll::Ready(None) => Obs::End,
                     Poll::Ready(Some(r)) => Obs::Item(r.parameters().copied().unwrap_or(u64::MAX), r.continues(), r.parameters().is_some()),
@@ -374,6 +426,11 @@ pub fn judge_once(ops: &[OOp], obs: &[Obs]) -> Option<(String, String)> {
             (OOp::Poll, Obs::Pending) => {
                 if gone {
                     return Some(("once-poll-pending-after-notify-or-drop".into(), format!("step {k}")));
+                }
+            }
+            (OOp::Poll, Obs::NotWoken) => {
+                if gone && !ended {
+                    return Some(("once-stream-not-woken-after-notify-or-drop".into(), format!("step {k}: the stream returned Pending earlier and its waker has not fired although the notifier has notified / is gone")));
                 }
             }
             (OOp::Poll, Obs::Item(v, c, present)) => {
@@ -417,6 +474,16 @@ fn check_once(ops: &[OOp], rep: &mut Report) {
                     rep.violation(&format!("C20/{name}/{sig}"), format!("{detail}; ops {ops:?}; observed {obs:?}"), replay());
                 }
                 traces.push(obs);
+            }
+        }
+    }
+    for (name, r) in [("tokio", vnet::catch(|| execute_once_mode::<Tok>(ops, true))), ("smol", vnet::catch(|| execute_once_mode::<Smo>(ops, true)))] {
+        match r {
+            Err(p) => rep.violation(&format!("C20/{name}/once-panic"), format!("panic (wake-driven): {p}; ops {ops:?}"), replay()),
+            Ok(obs) => {
+                if let Some((sig, detail)) = judge_once(ops, &obs) {
+                    rep.violation(&format!("C20/{name}/{sig}"), format!("[wake-driven] {detail}; ops {ops:?}; observed {obs:?}"), replay());
+                }
             }
         }
     }
@@ -528,6 +595,7 @@ pub fn run(cfg: &Cfg) -> Report {
     rep.add("skipped_intermediate_values", stats.skips);
     rep.add("pending_polls", stats.pendings);
     rep.add("stream_ends_observed", stats.ends);
+    rep.add("wake_driven_polls_skipped_because_not_woken", stats.not_woken);
     rep.add("advisory_pending_after_every_state_handle_dropped", stats.pending_after_state_dropped);
     rep.exhaustive = false;
     rep
